@@ -28,7 +28,7 @@ func init() {
 		{"store without dirty mark", "emitter/ancestor/quorum_indexer.go", `\th\.dirty = true\n`, "", "C20.dirty"},
 	}
 	Controls["C23"] = []Control{
-		{"pebble value returned after Close", "kvdb/pebble/pebble.go", `limit = make\(\[\]byte, i\+1\)`, "limit = make([]byte, len(prefix))", "C23.range.successor"},
+		{"prefix successor keeps the trailing bytes", "kvdb/pebble/pebble.go", `limit = make\(\[\]byte, i\+1\)`, "limit = make([]byte, len(prefix))", "C23.range.successor"},
 		{"table Delete writes", "kvdb/table/table.go", `return t\.underlying\.Delete\(prefixed\(key, t\.prefix\)\)`, "return t.underlying.Put(prefixed(key, t.prefix), nil)", "C23.wrapper"},
 	}
 	Controls["C24"] = []Control{
